@@ -288,8 +288,7 @@ func (db *Database) Ensure(sch *schema.Schema) {
 			if ovs != nil {
 				// add newly created indexes
 				ti := meta.GetRoInfo(sch.Table) // not actually read-only
-				i := len(ti.Indexes) - len(ovs)
-				copy(ti.Indexes[i:], ovs)
+				installIndexes(ti.Indexes, ovs)
 			}
 			state.Meta = meta
 		})
@@ -421,6 +420,19 @@ func (db *Database) buildIndexes(table string,
 	return ovs
 }
 
+// installIndexes puts the overlays from buildIndexes at the end of indexes.
+// The new overlays must have the same number of layers
+// as the existing indexes have now, which can be fewer than when buildIndexes
+// took its snapshot, because merges queued before then may have run since.
+// (All the data is in the new btrees, the layers are empty.)
+func installIndexes(indexes []*index.Overlay, ovs []*index.Overlay) {
+	i := len(indexes) - len(ovs)
+	nlayers := indexes[0].Nlayers()
+	for j, ov := range ovs {
+		indexes[i+j] = ov.WithNlayers(nlayers)
+	}
+}
+
 // MakeLess handles _lower! but not rules.
 // It is used for indexes (which don't support rules).
 func MakeLess(store *stor.Stor, is *ixkey.Spec) func(x, y uint64) bool {
@@ -505,8 +517,7 @@ func (db *Database) AlterCreate(sch *schema.Schema) {
 			if ovs != nil {
 				// add newly created indexes
 				ti := meta.GetRoInfo(sch.Table) // not really read-only
-				i := len(ti.Indexes) - len(ovs)
-				copy(ti.Indexes[i:], ovs)
+				installIndexes(ti.Indexes, ovs)
 			}
 			state.Meta = meta
 		})
